@@ -6,6 +6,7 @@ import CatiiProofs.Filtered
 import CatiiProofs.SetUpdates
 import CatiiProofs.Update
 import CatiiProofs.Queries
+import CatiiProofs.FromArrayWf
 /-!
 # C06 — index operations track NumPy on the dense array over any history
 
@@ -190,6 +191,22 @@ theorem represents_self (i : IIndex) (h : WF i) :
   cases hsh : i.shape with
   | nil => rw [hsh] at this; simp at this
   | cons a as => simp
+
+/-- histories may start from any array: `from_array` yields an index that represents the (mapped) array
+(`CatiiProps.C01.from_array_dense` says what `denseAt idx` is), so `history_partial` applies to it -/
+theorem from_array_starts_a_history (a : Arr) (o : FromOpts) (idx : IIndex) (w : Bool) (harr : ArrOK a)
+    (h : fromArray a o = .ok (idx, w))
+    (hcounts : ∀ c, o.counts = some c → (c.map (·.1)).Nodup ∧ ∀ v ∈ a.data, v ∈ c.map (·.1))
+    (ops : List Op) (hok : OpsOK (idx.shape.drop 1) idx.nrows ops) (r : IIndex) (hr : run idx ops = .ok r) :
+    Represents r (idx.shape.drop 1) (specRun (idx.nrows, fun row hi => denseAt idx row hi) ops) := by
+  have hw := fromArray_wf a o idx w harr h hcounts
+  have hshape : idx.shape = a.shape := by
+    obtain ⟨es, hidx, _⟩ := fromArray_inv a o idx w h
+    rw [hidx]
+  have hnd : (idx.shape.drop 1).length ≤ 1 := by
+    rw [hshape]; simp only [List.length_drop]
+    rcases harr.ndim with h1 | h1 <;> omega
+  exact history_partial idx (idx.shape.drop 1) _ (represents_self idx hw) hnd ops hok r hr
 
 /-! ### the entry-wise set updates (the property: "entry-wise set algebra")
 
